@@ -40,7 +40,7 @@ def run(ctx):
         c11.LOOPS = saved
     c11.r111(ctx, m)
     from . import callsigs as _cs
-    _cs.general_rules(ctx, 'R3', ['core', 'encoding', 'api.ParquetFile.read_row_group_file'])
+    _cs.general_rules(ctx, 'R3', ['core', 'encoding', 'api.ParquetFile.read_row_group_file', 'converted_types', 'writer.convert', 'writer.find_type'])
 
 
 def _chain_ends_in_raise(first_if):
